@@ -109,6 +109,7 @@ def handle (args : List String) : String :=
     | some n, some as =>
       match shift (List.replicate n []) as with
       | .usage => "usage"
+      | .outOfRange => "range"
       | .ok k => "ok " ++ toString k
       | .panic => "panic"
     | _, _ => "bad-op"
@@ -194,7 +195,8 @@ def handle (args : List String) : String :=
     match ofRunes r, optInt off, optInt len with
     | some r, some off, some len =>
       match sliceStr r off len with
-      | .ok o => toRunes o
+      | .ok (some o) => toRunes o
+      | .ok none => "error"
       | .panic => "panic"
     | _, _, _ => "bad-op"
   | ["sliceelems", n, idx, off, len] =>
@@ -210,7 +212,8 @@ def handle (args : List String) : String :=
     | some ps =>
       (if isArithName (.word ps) then "1 " else "0 ") ++
       (match arithLvalue (.word ps) with
-       | .ok n => toHex n
+       | .ok (some n) => toHex n
+       | .ok none => "error"
        | .panic => "panic")
     | none => "bad-op"
   | ["assoc", k] =>
